@@ -8,7 +8,7 @@
 (* Every event is judged under the strict model (D = {}) and, if that       *)
 (* fails, under the named deviations, which attributes it to a known        *)
 (* finding or leaves it as a violation.                                      *)
-EXTENDS Codec, Json, IOUtils
+EXTENDS Codec, NackDefs, Json, IOUtils
 
 TraceFile == IOEnv.VERIF_TRACE
 Trace     == ndJsonDeserialize(TraceFile)
@@ -19,11 +19,11 @@ VARIABLES l,       \* index of the next event
           nt       \* the current case (since the last reset) had a judgement that binds the code
 tvars == << vars, l, bad, stats, nt >>
 
-StatKeys == {"build", "setbuf", "marshal_ok", "marshal_err", "size", "dest", "header", "string",
+StatKeys == {"nack", "validate", "cname", "build", "setbuf", "marshal_ok", "marshal_err", "size", "dest", "header", "string",
              "dec_valid", "dec_mustreject", "dec_undefined", "dec_accepted", "dgram_valid", "dgram_mustreject",
              "dgram_undefined", "dgram_accepted", "unit_dec", "unit_enc", "reset", "roundtrips", "wf_values",
              "cases_nontrivial"}
-Binding == {"dec_valid", "dec_mustreject", "dgram_valid", "dgram_mustreject", "wf_values", "unit_dec", "unit_enc", "roundtrips"}
+Binding == {"nack", "validate", "dec_valid", "dec_mustreject", "dgram_valid", "dgram_mustreject", "wf_values", "unit_dec", "unit_enc", "roundtrips"}
 TraceInit ==
   /\ Init /\ l = 1 /\ bad = << >> /\ stats = [k \in StatKeys |-> 0] /\ nt = FALSE
 
@@ -103,6 +103,29 @@ TrString ==
      /\ pk' = IF e.post.k = "SAME" THEN pk ELSE [pk EXCEPT ![e.h] = e.post]
      /\ Step(Verdict(G, Modified(e)), {"string"}, pk[e.h].k)
 
+TrValidate ==
+  /\ e.op = "validate"
+  /\ LET G(D) == ValidateTags(pk[e.h], [ok |-> e.ok, panic |-> e.panic]) IN
+     /\ UNCHANGED << buf, prov, memo, fromdec, provdec >>
+     /\ pk' = IF e.post.k = "SAME" THEN pk ELSE [pk EXCEPT ![e.h] = e.post]
+     /\ Step(Verdict(G, Modified(e)), {"validate", "wf_values"}, pk[e.h].k)
+TrCname ==
+  /\ e.op = "cname"
+  /\ LET G(D) == CnameTags(pk[e.h], [ok |-> e.ok, panic |-> e.panic, out |-> e.out]) IN
+     /\ UNCHANGED << buf, prov, memo, fromdec, provdec >>
+     /\ pk' = IF e.post.k = "SAME" THEN pk ELSE [pk EXCEPT ![e.h] = e.post]
+     /\ Step(Verdict(G, Modified(e)), {"cname"}, pk[e.h].k)
+
+\* NACK helpers (C12): stateless calls
+TrNack ==
+  /\ e.op \in {"nackpairs", "packetlists", "ranges"}
+  /\ LET tags == IF e.panic THEN {"C12:panic"}
+                 ELSE CASE e.op = "nackpairs" -> NackPairsTags(e.args, e.out) \cup (IF ~e.argsame THEN {"C18:input_modified"} ELSE {})
+                        [] e.op = "packetlists" -> PacketListsTags(e.id, e.args, e.out)
+                        [] e.op = "ranges" -> RangesTags(e.pid, e.blp, e.out) \cup (IF ~e.argsame THEN {"C18:packet_modified"} ELSE {})
+         G(D) == tags IN
+     /\ UNCHANGED vars /\ Step(Verdict(G, {}), {"nack"}, "NACKHELPER")
+
 DecRes(ev) == [ok |-> ev.ok, out |-> ev.out, panic |-> ev.panic, slow |-> ev.slow, alloc |-> ev.alloc]
 DecClass(prefix, st, ok) ==
   {prefix \o (IF st = "ok" THEN "_valid" ELSE IF st = "rej" THEN "_mustreject" ELSE "_undefined")}
@@ -159,7 +182,7 @@ TrUnitEnc ==
 TraceNext ==
   /\ l <= Len(Trace)
   /\ \/ TrBuild \/ TrSetBuf \/ TrReset \/ TrMarshal \/ TrSize \/ TrDest \/ TrHeader \/ TrString
-     \/ TrUnmarshal \/ TrDatagram \/ TrUnitDec \/ TrUnitEnc
+     \/ TrUnmarshal \/ TrDatagram \/ TrUnitDec \/ TrUnitEnc \/ TrValidate \/ TrCname \/ TrNack
 
 TraceSpec == TraceInit /\ [][TraceNext]_tvars
 
